@@ -223,6 +223,13 @@ pub fn jobs(id: &str, thorough: bool) -> Vec<Job> {
         }),
         _ => {}
     }
+    // the in-process engines are bound to the real binary by replaying explored histories against it
+    if matches!(id, "C01" | "C02" | "C03" | "C05" | "C06" | "C07" | "C08" | "C16") {
+        v.push(Job::Other {
+            name: "E/conformance",
+            run: crate::engine_e::conformance,
+        });
+    }
     v
 }
 
